@@ -845,3 +845,22 @@ package parse
 //@   requires[inv:unescapes-injective] forallof(a, rune, forallof(b, rune, haskey(unescapes, a) && haskey(unescapes, b) && a != b ==> unescapes[a] != unescapes[b]))
 //@   requires escapes != nil && !same(escapes, unescapes)
 //@   modifies escapes[_]
+
+// C15: the character classes the text scanner and the line-joining rule use are
+// exactly the ASCII ones (the scanner steps over them one byte at a time).
+//@ func isSpace
+//@   props C15
+//@   pure
+//@   ensures[space-or-tab;C15] result == (r == 32 || r == 9)
+//@ func isEndOfLine
+//@   props C15
+//@   pure
+//@   ensures[cr-or-lf;C15] result == (r == 13 || r == 10)
+//@ func isSpaceEOL
+//@   props C15
+//@   pure
+//@   ensures[one-byte-whitespace;C15] result == (r == 32 || r == 9 || r == 13 || r == 10)
+//@ func isTightJoiner
+//@   props C15
+//@   pure
+//@   ensures[text-boundary-or-angle-bracket;C15] result == (r == 0 || r == 60 || r == 62)
